@@ -318,8 +318,22 @@ fn source_read(parts: &mut std::str::Split<char>) -> String {
     show(r)
 }
 
+/// start (ms since program start, +1) of the request being served, 0 when idle
+static CUR_START: std::sync::atomic::AtomicU64 = std::sync::atomic::AtomicU64::new(0);
+/// a request that takes longer than this is a hang of the code under test: abort, the harness records it as data
+const WATCHDOG_MS: u64 = 20_000;
+
 fn main() {
     std::panic::set_hook(Box::new(|_| {}));
+    let t0 = std::time::Instant::now();
+    std::thread::spawn(move || loop {
+        std::thread::sleep(std::time::Duration::from_millis(250));
+        let s = CUR_START.load(std::sync::atomic::Ordering::Relaxed);
+        if s != 0 && (t0.elapsed().as_millis() as u64 + 1).saturating_sub(s) > WATCHDOG_MS {
+            eprintln!("watchdog: request exceeded {} ms", WATCHDOG_MS);
+            std::process::abort();
+        }
+    });
     let stdin = std::io::stdin();
     let stdout = std::io::stdout();
     let mut w = std::io::BufWriter::new(stdout.lock());
@@ -330,6 +344,7 @@ fn main() {
         if first.is_empty() {
             continue;
         }
+        CUR_START.store(t0.elapsed().as_millis() as u64 + 1, std::sync::atomic::Ordering::Relaxed);
         let mut out = String::from("{");
         if first == "R" {
             let r = catch_unwind(AssertUnwindSafe(|| source_read(&mut parts)));
@@ -340,6 +355,7 @@ fn main() {
             out.push('}');
             writeln!(w, "{}", out).unwrap();
             w.flush().unwrap();
+            CUR_START.store(0, std::sync::atomic::Ordering::Relaxed);
             continue;
         }
         if first == "S" {
@@ -362,6 +378,7 @@ fn main() {
             out.push('}');
             writeln!(w, "{}", out).unwrap();
             w.flush().unwrap();
+            CUR_START.store(0, std::sync::atomic::Ordering::Relaxed);
             continue;
         }
         let idx: usize = first.parse().unwrap();
@@ -420,5 +437,6 @@ fn main() {
         out.push('}');
         writeln!(w, "{}", out).unwrap();
         w.flush().unwrap();
+        CUR_START.store(0, std::sync::atomic::Ordering::Relaxed);
     }
 }
